@@ -709,7 +709,7 @@ func (c *FnCtx) sliceOp(fr *Frame, st *State, x *ssa.Slice) {
 		// elements of a sub-slice: nth(extract(s,lo,n), j) = nth(s, lo+j)
 		bv := ts.Bound("j", SInt)
 		ax := ts.Quant("forall", bv, ts.Implies(ts.And(ts.Le(ts.Int(0), bv), ts.Lt(bv, ts.Sub(hi, lo))), ts.Eq(ts.Nth(r, bv), ts.Nth(s, ts.Add(lo, bv)))))
-		c.addFactT(st, r, ax)
+		c.addFactNth(st, r, ax)
 	}
 	fr.regs[x] = r
 }
@@ -781,6 +781,9 @@ func (c *FnCtx) mapGet(st *State, mt types.Type, m, k *Term) (val, ok *Term) {
 	val = ts.Select(sel, k)
 	ln := c.hget(st, mh.ln, mh.sln, m)
 	c.addFact(st, ts.Implies(ok, ts.Ge(ln, ts.Int(1))))
+	if c.noObl == 0 && len(c.mapReads) < 400 {
+		c.mapReads = append(c.mapReads, mapRead{mt: mt, m: m, k: k, ok: ok, val: val, ln: ln})
+	}
 	return
 }
 
